@@ -125,6 +125,50 @@ Definition decl_label (name : list N) (d : decl) : option (list N) :=
     end
   end.
 Definition decl_loc (d : decl) : loc := match d with DVar _ _ l => l | DFunc _ _ l => l end.
+Definition decl_is_local (d : decl) : bool := match d with DVar lc _ _ => lc | DFunc lc _ _ => lc end.
+
+(* GetLspHoverVarStr follows the chain of definitions of a declaration that is initialised from another NAME
+   (`local limit = base`): findList = the declaration, the declaration of `base`, ... The label is built for the HOVERED
+   name: `local ` when the hovered (first) declaration is local, the type / value / parameter list of the declaration the
+   chain ends in; the documentation is the first non-empty comment along the chain (the hovered declaration's own
+   comment if it has one, else the comment of what it is initialised from). *)
+Definition label_of (lc : bool) (name : list N) (d : decl) : option (list N) :=
+  match d with
+  | DVar _ v _ =>
+    match type_str v with
+    | Some t => Some ((if lc then s_local else []) ++ name ++ s_colon ++ t)
+    | None => None
+    end
+  | DFunc _ f _ =>
+    match func_str name f with
+    | Some t => Some ((if lc then s_local else []) ++ t)
+    | None => None
+    end
+  end.
+
+Definition alias_target (d : decl) : option (list N) :=
+  match d with DVar _ (Some (EName n _)) _ => Some n | _ => None end.
+
+(* d and the declarations its initialiser chain leads to; None: the chain leaves the fragment (target not declared
+   exactly once at top level, or not above the alias, or more than `fuel` links) *)
+Fixpoint decl_chain (fuel : nat) (b : block) (d : decl) : option (list decl) :=
+  match alias_target d with
+  | None => Some [d]
+  | Some n =>
+    match fuel with
+    | O => None
+    | S f =>
+      match top_decls n b with
+      | [d'] => if (sl (decl_loc d') <? sl (decl_loc d))%Z
+                then match decl_chain f b d' with Some ds => Some (d :: ds) | None => None end
+                else None
+      | _ => None
+      end
+    end
+  end.
+
+Fixpoint first_nonempty (ls : list (list N)) : list N :=
+  match ls with [] => [] | [] :: t => first_nonempty t | a :: _ => a end.
 
 (* ------------------------------------------------------------------ the hover text *)
 Definition s_open : list N := [96; 96; 96; 108; 117; 97; 10].      (* ```lua\n *)
@@ -160,8 +204,11 @@ Section Hover.
   Variable classify : list N -> numcls.
   Variable gbk_decode : list N -> option (list N).
 
-  (* docf: documentation text from (comment map writes, line of the declared name) *)
-  Definition hover_with (docf : list (Z * cinfo) -> Z -> list N) (file bs : list N) (line col : Z) : Res hover_result :=
+  (* docf: documentation text from (comment map writes, line of the declared name);
+     inherit: the server's rule "first non-empty comment along the initialiser chain" (false: only the hovered
+     declaration's own comment - the property's demand) *)
+  Definition hover_with (inherit : bool) (docf : list (Z * cinfo) -> Z -> list N) (file bs : list N) (line col : Z)
+    : Res hover_result :=
     match lex_all gbk_runes bs with
     | Fault k => Fault k
     | OutOfFuel => OutOfFuel
@@ -186,9 +233,16 @@ Section Hover.
             match top_decls name b with
             | [] => Ok (HSkip SkNoDecl)
             | [d] =>
-              match decl_label name d with
-              | None => Ok (HSkip (match d with DVar _ _ _ => SkValue | DFunc _ _ _ => SkFuncBody end))
-              | Some label => Ok (HText (hover_value label (docf es (el (decl_loc d))) file))
+              match decl_chain 3 b d with
+              | None => Ok (HSkip SkValue)
+              | Some ds =>
+                let dl := last ds d in
+                match label_of (decl_is_local d) name dl with
+                | None => Ok (HSkip (match dl with DVar _ _ _ => SkValue | DFunc _ _ _ => SkFuncBody end))
+                | Some label =>
+                  let docs := map (fun x => docf es (el (decl_loc x))) (if inherit then ds else [d]) in
+                  Ok (HText (hover_value label (first_nonempty docs) file))
+                end
               end
             | _ => Ok (HSkip SkAmbiguous)
             end
@@ -199,5 +253,5 @@ Section Hover.
     end.
 
   (* the server: GetLineComment, GetStrComment, ConvertStrToUtf8 *)
-  Definition hover : list N -> list N -> Z -> Z -> Res hover_result := hover_with (hover_doc gbk_decode).
+  Definition hover : list N -> list N -> Z -> Z -> Res hover_result := hover_with true (hover_doc gbk_decode).
 End Hover.
